@@ -330,6 +330,63 @@ def finish(res, level, coverage_extra, assumptions, proof_ok, search_fn=None):
     return exit_code
 
 
+def summarize(res, cap=60):
+    """what a worker process sends back: small, picklable"""
+    return {'evaluations': res.corr['evaluations'], 'model_disagreements': res.corr['model_disagreements'][:cap],
+            'impl_failures': res.corr['impl_failures'][:cap], 'samples': res.corr['samples'][:6], 'hist': res.corr['hist'],
+            'distinct': res.distinct, 'extra': res.extra, 'notes': res.notes}
+
+
+def merge_summary(res, s):
+    res.corr['evaluations'] += s['evaluations']
+    res.corr['model_disagreements'] += s['model_disagreements']
+    res.corr['impl_failures'] += s['impl_failures']
+    if len(res.corr['samples']) < 8:
+        res.corr['samples'] += s['samples'][:2]
+    for k, v in s['hist'].items():
+        res.corr['hist'][k] = res.corr['hist'].get(k, 0) + v
+    res.distinct |= s['distinct']
+    for k, v in s['extra'].items():
+        if isinstance(v, (int, float)) and not isinstance(v, bool):
+            res.extra[k] = res.extra.get(k, 0) + v
+        else:
+            res.extra.setdefault(k, v)
+
+
+def parallel(res, worker, jobs, nproc=None):
+    """run worker(job) -> summary for every job in a process pool (bounded memory: jobs are small, every process is
+    recycled) and merge the summaries into res in job order. A worker that dies (e.g. out of memory) is detected
+    (BrokenProcessPool) and the remaining jobs are run sequentially, so the check never hangs."""
+    import concurrent.futures as cf, multiprocessing as mp
+    nproc = nproc or max(1, min(14, (os.cpu_count() or 2) - 2))
+    if len(jobs) <= 1 or nproc == 1:
+        for j in jobs:
+            merge_summary(res, worker(j))
+        return
+    done = 0
+    try:
+        with cf.ProcessPoolExecutor(max_workers=nproc, mp_context=mp.get_context('fork')) as ex:
+            for s in ex.map(worker, jobs, timeout=3 * 3600):
+                merge_summary(res, s); done += 1
+    except Exception as exn:   # BrokenProcessPool, TimeoutError
+        res.note(f'worker pool failed after {done} of {len(jobs)} jobs ({exn!r}); finishing sequentially')
+        for j in jobs[done:]:
+            merge_summary(res, worker(j))
+
+
+def cut_jobs(items, weight, limit):
+    """consecutive groups of items whose total weight stays near `limit`"""
+    out, cur, w = [], [], 0
+    for it in items:
+        wi = weight(it)
+        if cur and w + wi > limit:
+            out.append(cur); cur, w = [], 0
+        cur.append(it); w += wi
+    if cur:
+        out.append(cur)
+    return out
+
+
 def hbump(res, key, n=1):
     res.corr['hist'][key] = res.corr['hist'].get(key, 0) + n
 
